@@ -71,11 +71,15 @@ pub struct Cx<'tcx> {
 
 impl<'tcx> Cx<'tcx> {
     /// Full, untrimmed path; local items are prefixed with the crate name.
-    pub fn path(&self, did: rustc_span::def_id::DefId) -> String {
-        let s = rustc_middle::ty::print::with_no_trimmed_paths!(
-            rustc_middle::ty::print::with_crate_prefix!(self.tcx.def_path_str(did))
-        );
+    /// print with real definition paths (no re-export "visible" paths, no trimming)
+    pub fn pr(&self, f: impl FnOnce() -> String) -> String {
+        let s = rustc_middle::ty::print::with_no_visible_paths!(rustc_middle::ty::print::with_no_trimmed_paths!(
+            rustc_middle::ty::print::with_crate_prefix!(f())
+        ));
         self.fix(s)
+    }
+    pub fn path(&self, did: rustc_span::def_id::DefId) -> String {
+        self.pr(|| self.tcx.def_path_str(did))
     }
     pub fn fix(&self, s: String) -> String {
         if s.contains("crate::") {
@@ -85,10 +89,7 @@ impl<'tcx> Cx<'tcx> {
         }
     }
     pub fn ty(&self, t: rustc_middle::ty::Ty<'tcx>) -> String {
-        let s = rustc_middle::ty::print::with_no_trimmed_paths!(
-            rustc_middle::ty::print::with_crate_prefix!(format!("{t}"))
-        );
-        self.fix(s)
+        self.pr(|| format!("{t}"))
     }
     pub fn loc(&self, sp: rustc_span::Span) -> (String, usize, Vec<String>) {
         // location of the outermost call site (what the user wrote), plus macro backtrace
